@@ -30,6 +30,8 @@ pub struct GenCfg {
   pub neg_division: bool,
   pub single_field_struct_payload: bool,
   pub possibly_zero_divisor: bool,
+  /// `x % x` / `x / x` on the same variable (recorded C02 finding: folded to 0 / 1 although x may be zero)
+  pub same_operand_division: bool,
   /// steer the universe towards shapes a fault kind needs
   pub force_interface: bool,
   pub force_multi_module: bool,
@@ -38,7 +40,7 @@ pub struct GenCfg {
 
 impl Default for GenCfg {
   fn default() -> Self {
-    GenCfg { max_classes: 5, max_depth: 4, node_budget: 220, string_escapes: false, non_ascii_strings: false, wide_vec_ints: false, unboxable_recursive_enum: true, param_swap_tail_calls: true, big_ints: true, single_variant_pointer_enum: true, rec_call_in_short_circuit: true, tuple_typed_field: true, lambda_this_in_generic_class: true, lambda_this_in_enum_class: true, fn_typed_field_in_generic_class: true, fuel_in_base_case: true, effects_in_rec_call_args: true, derived_induction_args: true, neg_division: true, single_field_struct_payload: true, possibly_zero_divisor: true, force_interface: false, force_multi_module: false, force_hof: false }
+    GenCfg { max_classes: 5, max_depth: 4, node_budget: 220, string_escapes: false, non_ascii_strings: false, wide_vec_ints: false, unboxable_recursive_enum: true, param_swap_tail_calls: true, big_ints: true, single_variant_pointer_enum: true, rec_call_in_short_circuit: true, tuple_typed_field: true, lambda_this_in_generic_class: true, lambda_this_in_enum_class: true, fn_typed_field_in_generic_class: true, fuel_in_base_case: true, effects_in_rec_call_args: true, derived_induction_args: true, neg_division: true, single_field_struct_payload: true, possibly_zero_divisor: true, same_operand_division: true, force_interface: false, force_multi_module: false, force_hof: false }
   }
 }
 
@@ -1186,6 +1188,10 @@ impl<'t> Gen<'t> {
             Expr::new(Ty::Int, EK::Int([0, 1, 2, 3, -1, 5][self.t.choose(6)]))
           } else {
             self.expr(&Ty::Int, cx, d)
+          };
+          let b = match (&a.kind, &b.kind) {
+            (EK::Var(x), EK::Var(y)) if x == y && (op == "/" || op == "%") && !self.cfg.same_operand_division => Expr::new(Ty::Int, EK::Int(3)),
+            _ => b,
           };
           self.feat("arith");
           Expr::new(Ty::Int, EK::Binary(op, Box::new(a), Box::new(b)))
